@@ -68,6 +68,7 @@ pub fn decode_history_v2(data: &[u8]) -> History {
     let activation = if otaa { Activation::Otaa } else { Activation::Abp { fcnt_up: up, fcnt_down: down } };
     let mut h = decode_body(cfg, activation, ((b0 as u64 * 131 + b1 as u64) * 131 + b2 as u64) * 131 + b3 as u64, &mut it, true);
     h.board.nb_async_tx = b1 & 8 != 0;
+    h.board.snr = [5i8, -20, 31, 32, 127, -128, -32, -33][((b1 >> 4) & 7) as usize];
     h
 }
 
@@ -250,7 +251,7 @@ pub fn run(ctx: &mut Ctx) {
     for (ri, r) in regions.iter().enumerate() {
         for (fi, f) in fronts.iter().enumerate() {
             for otaa in [false, true] {
-                for part in 0..10u8 {
+                for part in 0..11u8 {
                     if thorough || (ri + fi + otaa as usize) % 3 == 0 {
                         jobs.push((*r, *f, otaa, part));
                     }
@@ -375,6 +376,17 @@ pub fn run(ctx: &mut Ctx) {
                                     run_one(&h, st, "sweep-many-requests");
                                 }
                             }
+                        }
+                    }
+                }
+                10 => {
+                    // DevStatusReq for every SNR value the radio can report (the answer carries it in a
+                    // 6-bit signed field), in FOpts and in a port-0 payload
+                    for snr in i8::MIN..=i8::MAX {
+                        for in_frm in [false, true] {
+                            let mut h = base_history(&cfg, *otaa, rng.next_u64(), vec![send_with(vec![Cmd::DevStatusReq], in_frm, snr % 5 == 0)]);
+                            h.board.snr = snr;
+                            run_one(&h, st, "sweep-DevStatusReq-snr");
                         }
                     }
                 }
